@@ -124,10 +124,10 @@ theorem C18_same_pages {c : WalkCfg} {excl : List Str → Bool → Bool} {pfx : 
     (hf : c.toStdout = false) (htree : treeOk listing = true) (hr : r.error = none) (hh : c.headers ≠ [])
     (hp : ∀ p ∈ pagesOf c excl rel listing, (page c (some pfx) (relPath p) p.2.2).isOk = true) :
     (walkDir c excl pfx rel listing r).writes =
-        r.writes ++ (layoutOf c excl rel listing).map (Item.write c pfx) ∧
-      ((layoutOf c excl rel listing).filter Item.isPage).map (Item.write c pfx) =
+        r.writes ++ (layoutOf c excl rel listing).map (WItem.write c pfx) ∧
+      ((layoutOf c excl rel listing).filter WItem.isPage).map (WItem.write c pfx) =
         (pagesOf c excl rel listing).map (fun p => (⟨pagePath p, pageText c pfx p⟩ : Write)) ∧
-      ((layoutOf c excl rel listing).filter (fun it => !it.isPage)).map (Item.write c pfx) =
+      ((layoutOf c excl rel listing).filter (fun it => !it.isPage)).map (WItem.write c pfx) =
         (indexesOf c excl rel listing).map
           (fun d => (⟨indexPath d, okText (indexPage c pfx d.1 d.2.1 d.2.2)⟩ : Write)) ∧
       (walkDir c excl pfx rel listing r).stdout = r.stdout ∧
@@ -139,7 +139,7 @@ theorem C18_same_pages {c : WalkCfg} {excl : List Str → Bool → Bool} {pfx : 
 theorem C18_page_mode_irrelevant (c : WalkCfg) (b : Bool) : page { c with toStdout := b } = page c := rfl
 
 /-- neither does the text of any item, nor the layout -/
-theorem C18_text_mode_irrelevant (c : WalkCfg) (b : Bool) (pfx : Str) (it : Item) :
+theorem C18_text_mode_irrelevant (c : WalkCfg) (b : Bool) (pfx : Str) (it : WItem) :
     it.text { c with toStdout := b } pfx = it.text c pfx := by
   cases it <;> rfl
 
@@ -155,12 +155,12 @@ theorem C18_stdout_eq_file {c : WalkCfg} {excl : List Str → Bool → Bool} {pf
     (htree : treeOk listing = true) (hr₁ : r₁.error = none) (hr₂ : r₂.error = none) (hh : c.headers ≠ [])
     (hp : ∀ p ∈ pagesOf c excl rel listing, (page c (some pfx) (relPath p) p.2.2).isOk = true) :
     (walkDir { c with toStdout := false } excl pfx rel listing r₂).writes =
-        r₂.writes ++ (layoutOf c excl rel listing).map (Item.write c pfx) ∧
+        r₂.writes ++ (layoutOf c excl rel listing).map (WItem.write c pfx) ∧
       (walkDir { c with toStdout := true } excl pfx rel listing r₁).stdout =
-        r₁.stdout ++ ((((layoutOf c excl rel listing).filter Item.isPage).map (Item.write c pfx)).map
+        r₁.stdout ++ ((((layoutOf c excl rel listing).filter WItem.isPage).map (WItem.write c pfx)).map
           (fun w => w.content ++ ['\n', '\n'])).flatten := by
-  have hw : ∀ b, Item.write { c with toStdout := b } pfx = Item.write c pfx := by
-    intro b; funext it; simp only [Item.write, Item.textD, C18_text_mode_irrelevant]
+  have hw : ∀ b, WItem.write { c with toStdout := b } pfx = WItem.write c pfx := by
+    intro b; funext it; simp only [WItem.write, WItem.textD, C18_text_mode_irrelevant]
   have ht : ∀ b, pageText { c with toStdout := b } pfx = pageText c pfx := by
     intro b; rfl
   constructor
@@ -213,7 +213,7 @@ example : (walkDir exCfg exExcl (lit "P") [] exTree {}).writes[2]? =
 -- the printed text of a file is the content written for it with `-o`
 example : ∀ r₁ r₂ : RunResult, r₁.error = none → r₂.error = none →
     (walkDir { exCfg with toStdout := true } exExcl (lit "P") [] exTree r₁).stdout =
-      r₁.stdout ++ ((((layoutOf exCfg exExcl [] exTree).filter Item.isPage).map (Item.write exCfg (lit "P"))).map
+      r₁.stdout ++ ((((layoutOf exCfg exExcl [] exTree).filter WItem.isPage).map (WItem.write exCfg (lit "P"))).map
         (fun w => w.content ++ ['\n', '\n'])).flatten :=
   fun _ _ h₁ h₂ => (C18_stdout_eq_file ex_treeOk h₁ h₂ (by decide) ex_ok).2
 
